@@ -766,6 +766,16 @@ CONTEXT_EDITS = [
 COPY_HOWS = ["deepcopy", "deepcopy", "model_copy", "model_copy_deep", "copy", "pickle"]
 
 
+def _recipe_of_slot(ops: list, upto: int, slot: int):
+    ri = None
+    for o in ops[: upto + 1]:
+        if o.get("slot") == slot and o["op"] in ("construct", "mutate"):
+            ri = o["recipe"]
+        elif o["op"] == "drop" and o.get("slot") == slot:
+            ri = None
+    return ri
+
+
 def add_copy_ops(plan: dict, rng, p: float = 0.25) -> None:
     """The caller copies a live document (copy.deepcopy, copy.copy, pydantic model_copy, pickle round trip) and
     encodes copy and original: an equal-valued document, so the same reference applies.  Own random stream, applied
@@ -779,6 +789,28 @@ def add_copy_ops(plan: dict, rng, p: float = 0.25) -> None:
         s = plan["ops"][i]["slot"]
         to = 200 + n_
         extra = [{"op": "copy", "slot": s, "to": to, "how": rng.choice(COPY_HOWS)}, {"op": "encode", "slot": to}]
+        ri = _recipe_of_slot(plan["ops"], i, s)
+        base = plan["recipes"][ri] if ri is not None else None
+        if base is not None and base["kind"] in ("single", "multi", "figure") and rng.random() < 0.5:
+            # ... and gives the copy (sometimes the original) another page set-up before encoding it
+            new = json_copy(base)
+            pg = dict(new.get("page") or {})
+            how = rng.choice(["orientation", "orientation", "margin", "size", "nrow"])
+            if how == "orientation":
+                pg["orientation"] = "landscape" if pg.get("orientation", "portrait") == "portrait" else "portrait"
+            elif how == "margin":
+                pg["margin"] = [0.5, 0.5, 1.0, 1.0, 0.75, 0.75] if pg.get("margin") != [0.5, 0.5, 1.0, 1.0, 0.75, 0.75] \
+                    else [1.0, 1.0, 1.5, 1.0, 1.0, 0.5]
+            elif how == "size":
+                pg["width"], pg["height"] = (11.0, 17.0) if pg.get("width") != 11.0 else (8.27, 11.69)
+            else:
+                pg["nrow"] = 7 if pg.get("nrow") != 7 else 9
+            new["page"] = pg
+            new.pop("calib", None)
+            plan["recipes"].append(new)
+            tgt = to if rng.random() < 0.75 else s
+            extra += [{"op": "mutate", "slot": tgt, "comp": "page", "recipe": len(plan["recipes"]) - 1},
+                      {"op": "encode", "slot": tgt}]
         if rng.random() < 0.7:
             extra.append({"op": "encode", "slot": s})
         if rng.random() < 0.3:
